@@ -1,5 +1,6 @@
 import EinoV.Basic.JsonUtil
 import EinoV.Model.C03
+import EinoV.Model.C03Loop
 import EinoV.Expected.C03
 
 /-
@@ -24,6 +25,15 @@ import EinoV.Expected.C03
 
   {"kind":"eager",…same graph…,"order":[keys]}   the eager engine (`eRun`) following a given
       completion order: what was submitted, collected, left uncollected when END fired.
+
+  {"kind":"intr",…same graph…,"eager":b,"before":[keys],"after":[keys],"priority":[keys]}
+      the engine with interrupt points (`iAll`, Expected loop facts): per Invoke of the
+      run-and-resume sequence the release script, the outcome (ok / interrupt info / stuck) and
+      what has been started / collected at its return; the result of the last Invoke.
+
+  {"kind":"prefail","needAll":b,"n":k,"fail":i}   `submitP` (Expected facts) of the tasks
+      1..k on the initial task manager where the pre-processor of task i fails: does `submit`
+      return an error, which executions have been started, `num`.
 -/
 namespace EinoV.Oracle.C03
 open Lean EinoV EinoV.C03
@@ -230,11 +240,53 @@ def handleEager (c : Json) : JE Json := do
     ("collected", J.mkStrs (st.done.filter (· != startKey))),
     ("uncollected", J.mkStrs (eUncollected st))]
 
+def invokeJson (pre : EState) (v : IInvoke) : Json :=
+  let (kind, b, a, p) := match v.out with
+    | .ok => ("ok", [], [], [])
+    | .stuck => ("stuck", [], [], [])
+    | .interrupt b a p => ("interrupt", b, a, p)
+  Json.mkObj [("out", Json.str kind), ("before", J.mkStrs b), ("after", J.mkStrs a), ("pending", J.mkStrs p),
+    ("steps", J.mkArr (v.steps.map fun st =>
+      Json.mkObj [("release", Json.str st.release), ("inflight", J.mkStrs st.inflight)])),
+    ("started", J.mkStrs (v.st.started.filter fun k => !pre.started.contains k)),
+    ("collected", J.mkStrs (v.st.done.filter fun k => !pre.done.contains k)),
+    ("uncollected", J.mkStrs (iUncollected v.st)), ("drained", J.mkStrs v.drained)]
+
+def invokesJson : EState → List IInvoke → List Json
+  | _, [] => []
+  | pre, v :: vs => invokeJson pre v :: invokesJson v.st vs
+
+def handleIntr (c : Json) : JE Json := do
+  let nodes ← (← J.arr c "nodes").mapM parseNode
+  let g : GCase := { nodes := nodes, endPreds := (← J.strList c "endPreds"), input := (← J.str c "input") }
+  let cfg : ICfg := { g := g, eager := (← J.bool c "eager"), before := (← J.strList c "before"),
+                      after := (← J.strList c "after"), order := (← J.strList c "priority") }
+  let runs := iAll cfg Expected.C03.loopFacts
+  let result : List (Key × String) := match runs.getLast? with
+    | some v => if v.out == IOut.ok then eResult g v.st else []
+    | none => []
+  pure <| Json.mkObj [
+    ("invokes", J.mkArr (invokesJson (iInit g) runs)),
+    ("result", J.mkArr (result.map fun p => J.mkStrs [p.1, p.2]))]
+
+def handlePrefail (c : Json) : JE Json := do
+  let needAll ← J.bool c "needAll"
+  let n ← J.nat c "n"
+  let fail ← J.nat c "fail"
+  let ts := (List.range n).map (· + 1)
+  match submitP Expected.C03.facts Expected.C03.loopFacts needAll St.init ts [fail] with
+  | none => throw "submit is not enabled in the initial state"
+  | some (s, err) =>
+    pure <| Json.mkObj [("err", Json.bool err), ("started", J.mkNats s.running), ("num", (s.num : Json)),
+      ("coll", Json.str (match s.coll with | .idle => "idle" | .window => "window" | .inline _ => "inline"))]
+
 def handle (c : Json) : JE Json := do
   match (← J.str c "kind") with
   | "tmtrace" => handleTrace c
   | "run" => handleRun c
   | "eager" => handleEager c
+  | "intr" => handleIntr c
+  | "prefail" => handlePrefail c
   | k => throw s!"bad case kind {k}"
 
 end EinoV.Oracle.C03
